@@ -150,6 +150,9 @@ pub struct Obs {
 	pub fatal: Option<String>,
 	pub sizes: Option<[usize; 4]>,
 	pub literal: Option<String>,
+	/// ops whose `Subscription::unsubscribe()` future has completed since the last line (not rendered:
+	/// the model has no front-end futures for it; used by oracles only)
+	pub unsub_done: Vec<usize>,
 }
 
 impl Obs {
@@ -199,6 +202,7 @@ pub struct Session {
 	slots: Vec<Slot>,
 	wire_seen: usize,
 	pub dead: bool,
+	unsub_done: Vec<usize>,
 }
 
 pub async fn barrier() {
@@ -287,6 +291,7 @@ impl Session {
 			slots: vec![],
 			wire_seen: 0,
 			dead: false,
+			unsub_done: vec![],
 		}
 	}
 
@@ -309,6 +314,7 @@ impl Session {
 	/// collect every front-end future that has resolved since the last call
 	async fn harvest(&mut self) -> Vec<(usize, Comp)> {
 		let mut out = vec![];
+		self.unsub_done.clear();
 		for i in 0..self.slots.len() {
 			let finished = match &self.slots[i] {
 				Slot::Call(h) => h.is_finished(),
@@ -355,6 +361,7 @@ impl Session {
 				},
 				Slot::Unsubscribing(h) => {
 					let _ = h.await;
+					self.unsub_done.push(i);
 				}
 				_ => {}
 			}
@@ -382,6 +389,7 @@ impl Session {
 		}
 		obs.wires = self.new_wires();
 		obs.comps = self.harvest().await;
+		obs.unsub_done = self.unsub_done.clone();
 	}
 
 	pub fn n_ops(&self) -> usize {
